@@ -969,6 +969,30 @@ impl Property for P14 {
                 }
             }
         }
+        // (h') complete frames within the limit whose payload LIES about its size (a definite array / map / string header
+        // announcing millions of elements or bytes, a handful present), read by the owning families: a decode error, the frames
+        // after it intact, and no allocation beyond what the bytes actually received justify
+        for &fam in &[Ty::VecU32, Ty::String, Ty::Bytes, Ty::Tree, Ty::MapRec] {
+            let good = vals(fam, &[3, 9]);
+            let liars: [&[u8]; 6] = [
+                &[0x9a, 0x01, 0x00, 0x00, 0x00, 0x01, 0x02],
+                &[0x9b, 0x20, 0x00, 0x00, 0x00, 0x00, 0x00, 0x00, 0x00, 0x01],
+                &[0xba, 0x01, 0x00, 0x00, 0x00, 0x01, 0x02],
+                &[0x7a, 0x01, 0x00, 0x00, 0x00, 0x61],
+                &[0x5a, 0x01, 0x00, 0x00, 0x00, 0x00],
+                &[0x82, 0x9a, 0x00, 0xff, 0xff, 0xff, 0x01],
+            ];
+            for body in liars {
+                for at in 0..=good.len() {
+                    let mut items = good.clone();
+                    items.insert(at, WKind::Raw { declared: body.len() as u32, body: body.to_vec() });
+                    for (rm, g) in [(0u8, u32::MAX), (0, 1), (1, 3)] {
+                        let r_src = if g == u32::MAX { vec![] } else { vec![Step::Xfer(g); 80] };
+                        out.push(C14 { r_src, r_max_len_mode: rm, ..base(fam, items.clone()) });
+                    }
+                }
+            }
+        }
         // (i) the default limit itself: a payload of exactly 512 KiB passes the writer and the reader, one byte more is
         // refused by the writer (nothing reaches the sink, the next value is unaffected) and, hand-framed, by the reader
         let exact = WKind::Val(bytes_spec_with_encoding_len(DEFAULT_MAX_LEN));
@@ -978,7 +1002,13 @@ impl Property for P14 {
             let lane = if g == u32::MAX { vec![] } else { vec![Step::Xfer(g); 12] };
             out.push(C14 { r_src: lane.clone(), w_sink: lane.clone(), ..base(Ty::Bytes, vec![small.clone(), exact.clone(), small.clone()]) });
             out.push(C14 { w_sink: lane.clone(), ..base(Ty::Bytes, vec![small.clone(), over.clone(), small.clone()]) });
-            out.push(C14 { r_src: lane, ..base(Ty::Bytes, vec![small.clone(), WKind::Raw { declared: DEFAULT_MAX_LEN as u32 + 1, body: vec![0x40; 64] }]) });
+            out.push(C14 { r_src: lane.clone(), ..base(Ty::Bytes, vec![small.clone(), WKind::Raw { declared: DEFAULT_MAX_LEN as u32 + 1, body: vec![0x40; 64] }]) });
+            // the same through with_buffer with buffers roomier than the limit: the room a caller hands in does not raise it
+            for init in [700_000u32, 699_999] {
+                out.push(C14 { w_sink: lane.clone(), w_init_buf: init, ..base(Ty::Bytes, vec![small.clone(), over.clone(), small.clone()]) });
+                out.push(C14 { r_src: lane.clone(), r_init_buf: init, ..base(Ty::Bytes, vec![small.clone(), WKind::Raw { declared: DEFAULT_MAX_LEN as u32 + 1, body: vec![0x40; 64] }]) });
+                out.push(C14 { r_src: lane.clone(), w_sink: lane.clone(), w_init_buf: init, r_init_buf: init, ..base(Ty::Bytes, vec![small.clone(), exact.clone(), small.clone()]) });
+            }
         }
         // (j) a frame of more than 16 MiB: the only case in which the most significant byte of the length prefix is not zero
         let huge = WKind::Val(spec_with_encoding_len(Ty::Str, (16 << 20) + 11));
